@@ -39,7 +39,8 @@ func (r *Rng) Fork() *Rng { return &Rng{r.U64()} }
 
 // ---------- batch generator ----------
 
-var FieldNames = []string{"body", "title", "tag", "désc", "z"}
+// field names on both sides of "_id" in byte order (upper case, digits and "_all" sort before it)
+var FieldNames = []string{"body", "title", "tag", "désc", "z", "Title", "0num"}
 var Vocab = []string{"", "a", "ab", "abc", "b", "cat", "dog", "naïve", "日本", "zz", "\x00", "the"}
 
 type GenOpts struct {
@@ -58,7 +59,7 @@ type GenOpts struct {
 
 func RandOpts(r *Rng, nd int, idbase string) GenOpts {
 	return GenOpts{NDocs: nd, IDBase: idbase, NoLocs: r.Chance(4), Freq1: r.Chance(4),
-		NFields: 1 + r.Intn(len(FieldNames)), VocabN: 2 + r.Intn(len(Vocab)-1), DVMask: r.Intn(32),
+		NFields: 1 + r.Intn(len(FieldNames)), VocabN: 2 + r.Intn(len(Vocab)-1), DVMask: r.Intn(128),
 		LongAP: r.Chance(6), FixedFields: r.Chance(3)}
 }
 
@@ -73,6 +74,17 @@ func genTok(r *Rng, o GenOpts, term string, compNames []string) Tok {
 		nl := 1 + r.Intn(3)
 		for q := 0; q < nl; q++ {
 			l := Loc{Pos: uint64(r.Intn(9)), Start: uint64(r.Intn(300)), End: uint64(r.Intn(300))}
+			if r.Chance(10) {
+				// values at the byte-length boundaries of the varint encoding
+				edge := []uint64{127, 128, 129, 16383, 16384, 16385, 2097151, 2097152}
+				l.Start = edge[r.Intn(len(edge))]
+				if r.Bool() {
+					l.End = edge[r.Intn(len(edge))]
+				}
+				if r.Chance(3) {
+					l.Pos = edge[r.Intn(len(edge))]
+				}
+			}
 			if r.Chance(3) {
 				n := 1 + r.Intn(2)
 				if o.LongAP && r.Chance(2) {
@@ -184,7 +196,7 @@ func GenBatch(r *Rng, o GenOpts) Batch {
 			}
 			sort.Strings(ns)
 			cf := Field{Name: "_all", Typ: 'c'}
-			if o.DVMask&16 != 0 {
+			if o.DVMask&64 != 0 {
 				cf.DV = true
 			}
 			seen := map[string]bool{}
